@@ -47,6 +47,27 @@ func regexToRegLan(pattern string) (string, error) {
 		return "", err
 	}
 	re = re.Simplify()
+	return regexTop(re)
+}
+
+// regexTop: a whole pattern under MatchString semantics. Top-level alternations (and capture
+// groups around them) are distributed, because each alternative may carry its own anchors
+// ("^a|b$" is "starts with a" or "ends with b").
+func regexTop(re *syntax.Regexp) (string, error) {
+	for re.Op == syntax.OpCapture {
+		re = re.Sub[0]
+	}
+	if re.Op == syntax.OpAlternate {
+		var alts []string
+		for _, sub := range re.Sub {
+			a, err := regexTop(sub)
+			if err != nil {
+				return "", err
+			}
+			alts = append(alts, a)
+		}
+		return "(re.union " + strings.Join(alts, " ") + ")", nil
+	}
 	// MatchString semantics: the pattern may match anywhere. Anchors are handled by
 	// splitting top-level concatenations: ^ at the start and $ at the end.
 	body, begin, end, err := stripAnchors(re)
